@@ -2,7 +2,7 @@
 use ordered_float::OrderedFloat;
 use push::instruction::printing::{Print, PrintLn, PrintString};
 use push::instruction::variable_name::VariableName;
-use push::instruction::{BoolInstruction, ExecInstruction, FloatInstruction, IntInstruction, PushInstruction};
+use push::instruction::{BoolInstruction, ExecInstruction, FloatInstruction, Instruction, IntInstruction, PushInstruction};
 use push::push_vm::program::PushProgram;
 use push::push_vm::push_state::PushState;
 use push::push_vm::stack::Stack;
@@ -352,6 +352,11 @@ pub fn strings_of(t: &Tree) -> Option<Vec<String>> {
 }
 
 fn load<T>(st: &mut Stack<T>, vals: Vec<T>, cap: usize) -> Option<()> {
+    // only well-formed states (every stack within its maximum) are in the input language: they are what the
+    // builder produces and what every program step preserves (C03, C19); the properties quantify over those
+    if vals.len() > cap {
+        return None;
+    }
     st.set_max_stack_size(usize::MAX);
     st.push_many(vals).ok()?;
     st.set_max_stack_size(cap);
@@ -360,8 +365,8 @@ fn load<T>(st: &mut Stack<T>, vals: Vec<T>, cap: usize) -> Option<()> {
 
 /// state tree: [exec_cap, [progs top first], int_cap, [ints], float_cap, [float bits], bool_cap, [bools],
 ///              [[name, kind, value]...], step_limit]
-/// Stack contents are loaded through `HasStack::stack_mut` (so capacities below the
-/// contents are expressible); inputs and the step limit go through the builder.
+/// Stack contents are loaded through `HasStack::stack_mut`; a stack holding more than its maximum is
+/// rejected (not a reachable state); inputs and the step limit go through the builder.
 pub fn mk_state(t: &Tree, strings: &[String]) -> Option<PushState> {
     let l = t.list()?;
     let b = PushState::builder().with_max_stack_size(0).with_no_program();
@@ -387,6 +392,41 @@ pub fn mk_state(t: &Tree, strings: &[String]) -> Option<PushState> {
     let bs: Vec<bool> = l.get(7)?.list()?.iter().map(Tree::bool).collect::<Option<_>>()?;
     load(s.stack_mut::<bool>(), bs, l.get(6)?.usize()?)?;
     Some(s)
+}
+
+/// does every input declared in the state tree `t` still resolve, in `s`, to its (last) declared value?
+/// (`PushState` offers no accessor for its inputs; each is resolved by performing `InputVar` on a clone with
+/// room on every stack)
+pub fn inputs_intact(s: &PushState, t: &Tree) -> bool {
+    let Some(decls) = t.list().and_then(|l| l.get(8)).and_then(Tree::list) else { return false };
+    let mut last: std::collections::BTreeMap<i128, (i128, i128)> = Default::default();
+    for d in decls {
+        let Some(d) = d.list() else { return false };
+        let (Some(n), Some(k), Some(v)) = (d.first().and_then(Tree::int), d.get(1).and_then(Tree::int), d.get(2).and_then(Tree::int)) else { return false };
+        last.insert(n, (k, v));
+    }
+    for (n, (k, v)) in last {
+        let mut c = s.clone();
+        c.stack_mut::<i64>().set_max_stack_size(usize::MAX);
+        c.stack_mut::<OrderedFloat<f64>>().set_max_stack_size(usize::MAX);
+        c.stack_mut::<bool>().set_max_stack_size(usize::MAX);
+        c.stack_mut::<PushProgram>().set_max_stack_size(usize::MAX);
+        let i = PushInstruction::InputVar(VariableName::from(var_name(n).as_str()));
+        let r = std::panic::catch_unwind(std::panic::AssertUnwindSafe(|| i.perform(c)));
+        let ok = match r {
+            Ok(Ok(c2)) => match k {
+                0 => c2.stack::<i64>().top().ok().map(|x| *x as i128) == Some(v) && c2.stack::<i64>().size() == s.stack::<i64>().size() + 1,
+                1 => c2.stack::<OrderedFloat<f64>>().top().ok().map(|x| fbits(x.0) as i128) == Some(fbits(f64::from_bits(v as u64)) as i128),
+                2 => c2.stack::<bool>().top().ok().map(|x| i128::from(*x)) == Some(v),
+                _ => false,
+            },
+            _ => false,
+        };
+        if !ok {
+            return false;
+        }
+    }
+    true
 }
 
 fn drain<T: Clone>(st: &Stack<T>) -> Vec<T> {
